@@ -50,7 +50,7 @@ class Variables:
                 eq = set_expressions[0].this
                 name = eq.this.sql()
                 value_expr = eq.args.get("expression")
-                value = value_expr.sql()
+                value = value_expr.sql(dialect="snowflake")
                 if not isinstance(value_expr, (exp.Literal, exp.Paren)):
                     # the value of an expression is what's substituted, so keep it together when inlined
                     value = f"({value})"
